@@ -93,8 +93,7 @@ theorem nodup_chansOf {r : Ref} (h : r.members.Nodup) (n : Bytes) : (r.chansOf n
 theorem toBytes_eq_modesString (m : CModes) :
     m.toBytes = modesString (m.modes.map fun x => (x.name, x.args)) := by
   unfold CModes.toBytes modesString
-  rw [List.length_map, List.map_map, List.flatMap_map]
-  rfl
+  rw [List.length_map, List.flatMap_map, List.flatMap_map]
 
 /-! ### What `Sim` says about the list views -/
 
